@@ -90,6 +90,10 @@ func (r *recObjValidator) Validate(obj interface{}) error {
 // process (the C20 stress runs many goroutines against them); validators then do not record.
 var Shared bool
 
+// PlainValidators makes freshly built stacks use the non-recording validators too (the stress
+// compares answers of fresh instances with answers of shared ones).
+var PlainValidators bool
+
 var sharedObjects sync.Map
 
 func shared(key string, mk func() interface{}) interface{} {
